@@ -43,6 +43,12 @@ LP/Agree.vos LP/Agree.vok LP/Agree.required_vos: LP/Agree.v LP/DriverSound.vos L
 Gen/Sites.vo Gen/Sites.glob Gen/Sites.v.beautified Gen/Sites.required_vo: Gen/Sites.v 
 Gen/Sites.vio: Gen/Sites.v 
 Gen/Sites.vos Gen/Sites.vok Gen/Sites.required_vos: Gen/Sites.v 
+Gen/Consts.vo Gen/Consts.glob Gen/Consts.v.beautified Gen/Consts.required_vo: Gen/Consts.v 
+Gen/Consts.vio: Gen/Consts.v 
+Gen/Consts.vos Gen/Consts.vok Gen/Consts.required_vos: Gen/Consts.v 
+LP/Codes.vo LP/Codes.glob LP/Codes.v.beautified LP/Codes.required_vo: LP/Codes.v Gen/Consts.vo LP/OptTest.vo LP/Driver.vo
+LP/Codes.vio: LP/Codes.v Gen/Consts.vio LP/OptTest.vio LP/Driver.vio
+LP/Codes.vos LP/Codes.vok LP/Codes.required_vos: LP/Codes.v Gen/Consts.vos LP/OptTest.vos LP/Driver.vos
 Log/LogModel.vo Log/LogModel.glob Log/LogModel.v.beautified Log/LogModel.required_vo: Log/LogModel.v Gen/Sites.vo
 Log/LogModel.vio: Log/LogModel.v Gen/Sites.vio
 Log/LogModel.vos Log/LogModel.vok Log/LogModel.required_vos: Log/LogModel.v Gen/Sites.vos
